@@ -1,5 +1,5 @@
 (* Proofs about the scheduled-task model TaskFut.v (C10). *)
-From Asynq Require Import Base Futures TaskFut proofs.FuturesProofs.
+From Asynq Require Import Base Futures BatchFut TaskFut proofs.FuturesProofs proofs.BatchFutProofs.
 
 (* [notes l oc] (the callback records produced by notifying [l] with outcome [oc]) and
    [after_notify l] (the live subscription list after the subscribers registered in [l] were
@@ -316,7 +316,7 @@ Qed.
    added after the cancellation; the cancelled task's generator raises in its cleanup *)
 Example task_notify_nonvacuous :
   run_task [mkphase ViaBatch (CleanRaise 77) [ISubscribe 2 CbOk; ISetError 300; ISubscribe 3 CbOk; ISetValue VNone; IError] (Ok VNone)]
-           (PRet (VInt 1)) [OSubscribe 1 CbRaise; OValue; OError]
+           (PRet (VInt 1)) [OSubscribe 1 (CbRaise XAssertion); OValue; OError]
   = ([RUnit; RRaise 300; RErr 300], [RUnit; RRaise 77; RUnit; RRaise E_ALREADY; RErr 300],
      [(1, Err 300); (2, Err 300)], 1, [1; 2; 3]).
 Proof. reflexivity. Qed.
@@ -332,4 +332,119 @@ Example task_reentrant_nonvacuous :
            (PRet (VInt 1)) [OSubscribe 1 (CbUnsub 1); OError; OReset; OValue]
   = ([RUnit; RErr 300; RUnit; RVal VNone], [RUnit; RUnit; RRaise 77; RUnit],
      [(1, Err 300); (2, Err 300); (3, Err 300); (5, Ok VNone); (4, Ok VNone)], 1, [5; 4]).
+Proof. reflexivity. Qed.
+
+(* ---- the CLASS of the Exception a subscriber raises does not matter (scheduled tasks) ---- *)
+Definition recls_iop (f : xcls -> xcls) (o : iop) : iop :=
+  match o with ISubscribe id k => ISubscribe id (recls f k) | _ => o end.
+Definition recls_phase (f : xcls -> xcls) (p : phase) : phase :=
+  mkphase (pvia p) (pclean p) (map (recls_iop f) (pinner p)) (pdep p).
+Definition recls_tstate (f : xcls -> xcls) (s : tstate) : tstate :=
+  tmk (option_map (map (recls_phase f)) (tgen s)) (tfin s) (tout s) (truns s)
+      (map (recls_sub f) (tsubs s)) (tlog s) (tinner s).
+Definition recls_case (f : xcls -> xcls) (c : anycase) : anycase :=
+  match c with
+  | CFut k p o ops => CFut k p o (map (recls_op f) ops)
+  | CTask ph fin ops => CTask (map (recls_phase f) ph) fin (map (recls_op f) ops)
+  | CBatch its fin ops => CBatch (map (recls_ispec f) its) fin (map (recls_bop f) ops)
+  end.
+
+Local Arguments tcomplete : simpl nomatch.
+
+Lemma tcomplete_recls f s o : tcomplete (recls_tstate f s) o = recls_tstate f (tcomplete s o).
+Proof. unfold tcomplete, recls_tstate. cbn. rewrite notify_recls. reflexivity. Qed.
+
+Lemma istep_recls f c s o :
+  istep c (recls_tstate f s) (recls_iop f o) = (recls_tstate f (fst (istep c s o)), snd (istep c s o)).
+Proof.
+  destruct o; cbn [istep recls_iop]; change (tout (recls_tstate f s)) with (tout s);
+    try (destruct (tout s); rewrite ?tcomplete_recls; reflexivity).
+  unfold recls_tstate. cbn. rewrite map_app. reflexivity.
+Qed.
+
+Lemma push_inner_recls f s r : push_inner (recls_tstate f s) r = recls_tstate f (push_inner s r).
+Proof. reflexivity. Qed.
+
+Lemma irun_recls f c ops : forall s,
+  irun c (recls_tstate f s) (map (recls_iop f) ops) = recls_tstate f (irun c s ops).
+Proof.
+  induction ops as [|o ops IH]; intros s; cbn [irun map]; auto.
+  rewrite istep_recls. destruct (istep c s o) as [s1 r]. cbn [fst snd].
+  now rewrite push_inner_recls, IH.
+Qed.
+
+Lemma exec_recls f ph : forall s,
+  exec (recls_tstate f s) (map (recls_phase f) ph) = recls_tstate f (exec s ph).
+Proof.
+  induction ph as [|p ph IH]; intros s; cbn [exec map].
+  - change (tfin (recls_tstate f s)) with (tfin s). apply tcomplete_recls.
+  - cbn [recls_phase pclean pinner pdep]. rewrite irun_recls.
+    change (tout (recls_tstate f (irun (pclean p) s (pinner p)))) with (tout (irun (pclean p) s (pinner p))).
+    destruct (tout (irun (pclean p) s (pinner p))); auto.
+    destruct (pdep p); [apply IH|apply tcomplete_recls].
+Qed.
+
+Lemma tcompute_recls f s : tcompute (recls_tstate f s) = recls_tstate f (tcompute s).
+Proof.
+  unfold tcompute. destruct s as [[ph|] fin o r sb lg inn]; cbn [tgen recls_tstate option_map].
+  - apply (exec_recls f ph (tmk None fin o (S r) sb lg inn)).
+  - apply (tcomplete_recls f (tmk None fin o r sb lg inn)).
+Qed.
+
+Lemma tread_recls f s rep :
+  tread (recls_tstate f s) rep = (recls_tstate f (fst (tread s rep)), snd (tread s rep)).
+Proof.
+  unfold tread. change (tout (recls_tstate f s)) with (tout s).
+  destruct (tout s); auto. rewrite tcompute_recls.
+  change (tout (recls_tstate f (tcompute s))) with (tout (tcompute s)).
+  destruct (tout (tcompute s)); reflexivity.
+Qed.
+
+Lemma tstep_recls f s o :
+  tstep (recls_tstate f s) (recls_op f o) = (recls_tstate f (fst (tstep s o)), snd (tstep s o)).
+Proof.
+  destruct o; cbn [tstep recls_op]; rewrite ?tread_recls; auto;
+    change (tout (recls_tstate f s)) with (tout s);
+    try (destruct (tout s); rewrite ?tcomplete_recls; reflexivity).
+  unfold recls_tstate. cbn. rewrite map_app. reflexivity.
+Qed.
+
+Lemma trun_recls f ops : forall s,
+  trun (recls_tstate f s) (map (recls_op f) ops) = (recls_tstate f (fst (trun s ops)), snd (trun s ops)).
+Proof.
+  induction ops as [|o ops IH]; intros s; cbn [trun map]; auto.
+  rewrite tstep_recls. destruct (tstep s o) as [s1 r]. cbn [fst snd]. rewrite IH.
+  destruct (trun s1 ops) as [s2 rs]. reflexivity.
+Qed.
+
+Lemma task_raise_class_irrelevant f ph fin ops :
+  run_task (map (recls_phase f) ph) fin (map (recls_op f) ops) = run_task ph fin ops.
+Proof.
+  unfold run_task. change (tinit (map (recls_phase f) ph) fin) with (recls_tstate f (tinit ph fin)).
+  rewrite trun_recls. destruct (trun (tinit ph fin) ops) as [s rs]. cbn.
+  rewrite map_map. reflexivity.
+Qed.
+
+(* the single correspondence entry: every compared observable of every case (plain future or
+   scheduled task, top-level and inner subscribers) is independent of the Exception classes *)
+Lemma any_raise_class_irrelevant f c : run_any (recls_case f c) = run_any c.
+Proof.
+  destruct c; cbn [run_any recls_case];
+    [now rewrite raise_class_irrelevant|now rewrite task_raise_class_irrelevant|
+     now rewrite batch_raise_class_irrelevant].
+Qed.
+
+Lemma any_same_shape_same_result c c' :
+  recls_case (fun _ => XUser) c = recls_case (fun _ => XUser) c' -> run_any c = run_any c'.
+Proof.
+  intros H. rewrite <- (any_raise_class_irrelevant (fun _ => XUser) c), H.
+  apply any_raise_class_irrelevant.
+Qed.
+
+(* non-vacuity: a task cancelled while suspended / completed by its body with asserting subscribers *)
+Example task_raise_class_nonvacuous :
+  run_task [mkphase ViaBatch CleanOk [ISubscribe 2 (CbRaise XStopIteration)] (Ok (VInt 1))]
+           (PRet (VInt 7)) [OSubscribe 1 (CbRaise XAssertion); OSubscribe 3 CbOk; OValue; OError]
+  = ([RUnit; RUnit; RVal (VInt 7); RNoError], [RUnit],
+     [(1, Ok (VInt 7)); (3, Ok (VInt 7)); (2, Ok (VInt 7))], 1, [1; 3; 2]).
 Proof. reflexivity. Qed.
